@@ -232,7 +232,8 @@ def main() -> int:
         sd = rng.randrange(1 << 30)
         if i % 5 == 1:   # the same kind of block open in several threads at once (per-decompiler state of the writer: loop and switch handler stacks)
             fam = rng.choice([["D-forever", "D-forever-2"], ["D-switch", "D-nested", "D-X2"], ["D-forever", "D-forever"], ["D-loop", "D-forever-2", "D-W"],
-                              ["T-loops", "T-flow"], ["T-loops", "T-loops"], ["T-flow", "T-macro", "T-loops"]])
+                              ["T-loops", "T-flow"], ["T-loops", "T-loops"], ["T-flow", "T-macro", "T-loops"],
+                              ["T-imp-main", "T-imp-main2"], ["T-imp-main2", "T-imp-main", "T-imp-lib"]])    # different main files importing the same files
             kind = "compile" if fam[0].startswith("T-") else "decompile"
             plan = [[(kind, fam[t % len(fam)])] * rng.choice([1, 2]) for t in range(nt)]
             sd |= 1      # with function-call yield points
